@@ -14,7 +14,7 @@ def perm_label(ids):
     return "".join(str(r) for r in T.ranks(ids)) if ids else "none"
 
 
-def check_gate(out, name, tag, sysnames, ids, do_gate_mat=True, do_el=True, do_el_heavy=True, sigtag=None):
+def check_gate(out, name, tag, sysnames, ids, do_gate_mat=True, do_el=True, do_el_heavy=True, sigtag=None, do_dispatch=True):
     """one catalogue gate name on one system / id assignment: gate forms, effective-Lindbladian forms, mirror."""
     from quara.objects import gate_typical as gt, effective_lindbladian_typical as elt, qoperation_typical as qt
     c, B, Bmat, d = sysinfo(tag, sysnames)
@@ -65,7 +65,7 @@ def check_gate(out, name, tag, sysnames, ids, do_gate_mat=True, do_el=True, do_e
         kg.close(sg("gate_mat-vs-textbook"), M, Mref)
         kg.true(sg("gate_mat-real"), np.isrealobj(np.asarray(M)))
     # dispatchers (every listed object_name)
-    if p_dispatch(name, do_gate_mat):
+    if do_dispatch:
         for form in qt.get_gate_object_names():
             okf, obj = kg.must(sg("dispatcher:%s" % form), qt.generate_qoperation_object, mode="gate", name=name,
                                object_name=form, dims=dims, ids=idl, c_sys=c)
@@ -126,7 +126,7 @@ def check_gate(out, name, tag, sysnames, ids, do_gate_mat=True, do_el=True, do_e
                 h0 = Hm - np.trace(Hm) / d * np.eye(d)
                 h2 = np.asarray(hm2, dtype=np.complex128)
                 ke.close(sg("calc_h_mat-vs-hamiltonian_mat"), h2 - np.trace(h2) / d * np.eye(d), h0, tol=1e-8)
-    if p_dispatch(name, do_el_heavy):
+    if do_dispatch and do_el_heavy:
         for form in qt.get_effective_lindbladian_object_names():
             okf, obj = ke.must(sg("dispatcher:%s" % form), qt.generate_effective_lindbladian_object, name, form, dims, idl, c)
             if okf:
@@ -135,10 +135,6 @@ def check_gate(out, name, tag, sysnames, ids, do_gate_mat=True, do_el=True, do_e
                 if want is not None:
                     ke.close(sg("dispatcher:%s-vs-direct" % form), obj.hs if form == "effective_lindbladian" else obj, want)
     return G if okG else None
-
-
-def p_dispatch(name, flag):
-    return bool(flag)
 
 
 def ex_gate(p, seed):
@@ -155,7 +151,7 @@ def ex_gate2qt(p, seed):
     out = Out()
     arrs = []
     for name in p["names"]:
-        G = check_gate(out, name, "D3,3", None, None, do_gate_mat=p["mat"], do_el=p["el"], do_el_heavy=p["el"])
+        G = check_gate(out, name, "D3,3", None, None, do_gate_mat=p["mat"], do_el=p["el"], do_el_heavy=p["el"], do_dispatch=p["el"])
         out.count("gate2qt_names")
         if "_" in name:
             out.count("gate2qt_two_base")
